@@ -21,6 +21,7 @@ import (
 
 	"verif/HARNESS/dyn"
 	"verif/core/hx"
+	"verif/core/schema"
 	"verif/core/stats"
 )
 
@@ -237,11 +238,29 @@ func TestC17RegistrationWhileServing(t *testing.T) {
 		w.server = restli.NewServer()
 		sl := &slot{hook: benignHook}
 		w.slots.Store("*", sl)
-		half := len(S.Resources) / 2
-		if round%2 == 1 {
-			half = 1 // almost every routing map is still empty when the handler is taken
+		// rounds 0/1: the first half (or just one) of the resources is registered before the handler is taken; rounds 2/3:
+		// only the sub-resources are - their parents then exist in the routing tree as nodes without any method (all
+		// routing maps empty) and are registered, while the earlier handler serves, afterwards
+		var first, later []*schema.Resource
+		if round < 2 {
+			half := len(S.Resources) / 2
+			if round%2 == 1 {
+				half = 1 // almost every routing map is still empty when the handler is taken
+			}
+			first, later = S.Resources[:half], S.Resources[half:]
+		} else {
+			for _, r := range S.Resources {
+				if len(r.Segments) > 1 {
+					first = append(first, r)
+				} else {
+					later = append(later, r)
+				}
+			}
+			if round == 3 && len(later) > 1 {
+				first, later = append(first, later[:len(later)/2]...), later[len(later)/2:]
+			}
 		}
-		for _, r := range S.Resources[:half] {
+		for _, r := range first {
 			dyn.Register(w.server, r, dyn.NewMock(S, r, w.script))
 		}
 		h := w.server.Handler()
@@ -249,13 +268,22 @@ func TestC17RegistrationWhileServing(t *testing.T) {
 		for _, r := range S.Resources {
 			paths = append(paths, "/"+r.Segments[0].Name)
 		}
-		before := map[string]int{}
+		// three lookups per root path: the finder map, the method map and the action map of the node
+		type probe struct{ verb, target string }
+		var probes []probe
 		for _, p := range paths {
+			probes = append(probes, probe{"GET", p + "?q=nosuch"}, probe{"GET", p}, probe{"POST", p + "?action=nosuch"})
+		}
+		ask := func(pr probe) int {
 			rr := newRecorder()
-			req, _ := http.NewRequest("GET", "http://verif.test"+p+"?q=nosuch", nil)
+			req, _ := http.NewRequest(pr.verb, "http://verif.test"+pr.target, nil)
 			req.Header.Set("X-RestLi-Protocol-Version", "2.0.0")
 			h.ServeHTTP(rr, req)
-			before[p] = rr.Code
+			return rr.Code
+		}
+		before := map[probe]int{}
+		for _, pr := range probes {
+			before[pr] = ask(pr)
 		}
 		var wg sync.WaitGroup
 		stop := make(chan struct{})
@@ -270,26 +298,22 @@ func TestC17RegistrationWhileServing(t *testing.T) {
 						return
 					default:
 					}
-					p := paths[(i+g)%len(paths)]
-					rr := newRecorder()
-					req, _ := http.NewRequest("GET", "http://verif.test"+p+"?q=nosuch", nil)
-					req.Header.Set("X-RestLi-Protocol-Version", "2.0.0")
-					h.ServeHTTP(rr, req)
-					if rr.Code != before[p] {
-						bad.Store(fmt.Sprintf("GET %s?q=nosuch on a handler obtained before was answered %d, then %d after resources were registered on the server", p, before[p], rr.Code))
+					pr := probes[(i*7+g)%len(probes)]
+					if code := ask(pr); code != before[pr] {
+						bad.Store(fmt.Sprintf("%s %s on a handler obtained before was answered %d, then %d after resources were registered on the server (round %d)", pr.verb, pr.target, before[pr], code, round))
 					}
 				}
 			}(g)
 		}
-		for _, r := range S.Resources[half:] {
+		for _, r := range later {
 			dyn.Register(w.server, r, dyn.NewMock(S, r, w.script))
 			runtime.Gosched()
 		}
 		close(stop)
 		wg.Wait()
 		rec.Case("registration_while_serving")
-		rec.NonTrivial("registration-while-serving", fmt.Sprintf("reg|%d|%d", round, half), func() any {
-			return map[string]any{"resources_before_handler": half, "registered_while_serving": len(S.Resources) - half}
+		rec.NonTrivial("registration-while-serving", fmt.Sprintf("reg|%d|%d", round, len(first)), func() any {
+			return map[string]any{"round": round, "resources_before_handler": len(first), "registered_while_serving": len(later)}
 		})
 		if m, _ := bad.Load().(string); m != "" {
 			rec.Violation("registration-while-serving", m, map[string]any{"round": round})
